@@ -103,6 +103,20 @@ func TestC14(t *testing.T) {
 				cov["traces_validated_against_impl"] = tv + av
 			}
 		}
+		// pass 3: the same property on the real REST / gRPC handlers over sqlite - pairs of read requests of one
+		// network overlapping at every SQL statement boundary (h/api TestC14API, a child process)
+		if bin := os.Getenv("VERIF_API_BIN"); bin != "" {
+			covAPI := run.RunShardsBin(bin, filepath.Join(os.Getenv("VERIF_DIR"), "h", "api"), "TestC14API", 1)
+			for k, v := range covAPI {
+				cov[k] = v
+			}
+			if ok, _ := covAPI["api_pairs_exhaustive"].(bool); !ok {
+				cov["exhaustive"] = false
+			}
+		} else {
+			fmt.Println("INFRA-ERROR C14: API binary missing")
+			os.Exit(2)
+		}
 		racePass(run, cov)
 		run.Assume("schedule exploration: visible-operation granularity, sequentially consistent; storage calls of the in-memory store are scheduling points",
 			"a request's reference outcome set is what the same request produces ALONE over all schedules to the same bound (so schedule dependence of a single check, finding KF-C01-1, is not blamed on interference)",
